@@ -52,6 +52,21 @@ fn scenario(sc: &Value) -> Value {
     let n = msgs.len();
     verif::set_actor(0);
     verif::emit("h.scenario", &[("id", id), ("routes", n as i64), ("proxies", progs.len() as i64)]);
+    // stalls: hold a thread for a while at a hook point, so that the other side of a race gets there first
+    // (e.g. the router services shutdown's wake-up before the shutdown message has been queued)
+    let stalls: std::collections::HashMap<String, u64> = sc["stalls"]
+        .as_object()
+        .map(|m| m.iter().filter_map(|(k, v)| v.as_u64().map(|u| (k.clone(), u))).collect())
+        .unwrap_or_default();
+    if stalls.is_empty() {
+        verif::set_gate_hook(None);
+    } else {
+        verif::set_gate_hook(Some(Box::new(move |site, _| {
+            if let Some(us) = stalls.get(site) {
+                std::thread::sleep(Duration::from_micros(*us));
+            }
+        })));
+    }
 
     for r in 1..=n {
         verif::emit("h.route", &[("r", r as i64), ("x", (kinds[r - 1] != "xbeam") as i64)]);
@@ -239,6 +254,7 @@ fn scenario(sc: &Value) -> Value {
         }
         routes.push(json!({"r": r, "calls": c, "xgot": xgot, "xdisc": xdisc}));
     }
+    verif::set_gate_hook(None);
     verif::emit("h.scenario.end", &[("id", id)]);
     json!({"id": id, "hang": hang, "routes": routes, "after_shutdown": *after_shutdown.lock().unwrap(),
            "send_errors": send_errors.load(Ordering::SeqCst)})
